@@ -90,6 +90,9 @@ func scenario(name string, initN int, progs ...prog) sched.Spec {
 							t.Op("popwait", -1, func() any { v, ok := c.l.PopWait(-1); return popRes{v, ok} })
 						case o == "popwait0":
 							t.Op("pop", 0, func() any { v, ok := c.l.PopWait(0); return popRes{v, ok} })
+						case o == "popwaitT5":
+							// shorter than one ticker period: the deadline is reached at the first tick
+							t.Op("pop", 5, func() any { v, ok := c.l.PopWait(5 * time.Millisecond); return popRes{v, ok} })
 						case o == "popwaitT":
 							t.Op("pop", 15, func() any { v, ok := c.l.PopWait(15 * time.Millisecond); return popRes{v, ok} })
 						case o == "len":
@@ -177,6 +180,8 @@ func main() {
 		specs = append(specs,
 			scenario("timed/popwaitT|push", init, prog{"popwaitT"}, prog{"push:1"}),
 			scenario("timed/popwaitT-alone", init, prog{"popwaitT"}),
+			scenario("timed/popwaitT5-alone", init, prog{"popwaitT5"}),
+			scenario("timed/popwaitT5|push", init, prog{"popwaitT5"}, prog{"push:1"}),
 		)
 		hs := scenario("timed/popwaitT|popwaitT|push", init, prog{"popwaitT"}, prog{"popwaitT"}, prog{"push:1"})
 		hs.Quick, hs.Heavy = 3, true
